@@ -55,9 +55,16 @@ DecodeCases == UNION {{[kind |-> "decode", field |-> f, form |-> x] : x \in Form
 Plains == {"empty", "idsub", "colons", "multiblock", "utf8", "long"}
 SealCases == {[kind |-> "seal", plain |-> p, key |-> k, via |-> v] : p \in Plains, k \in {"same", "bitflip", "other"}, v \in {"crypto", "op"}}
 
-\* one group per claims type (merge cases), plus the decode and seal tables
-Groups == Types \cup {"decode", "seal"}
-CasesOf(g) == IF g \in Types THEN MergeOf(g) ELSE IF g = "decode" THEN DecodeCases ELSE SealCases
+\* endpoint: the two documents the provider itself encodes from an object the storage filled (userinfo, introspection), on either router:
+\* what the storage stated - registered fields and custom claims - is what the HTTP answer contains ("active" is the provider's own)
+EndpointTypes == {"UserInfo", "IntrospectionResponse"}
+EProbes(t) == Probes[t] \ {"active"}
+EndpointCases == UNION {{[kind |-> "endpoint", t |-> t, regs |-> SetToSeq(r), customs |-> SetToSeq(c), router |-> ro] :
+                            r \in Small(EProbes(t)), c \in Small(EProbes(t)), ro \in {"P", "L"}} : t \in EndpointTypes}
+
+\* one group per claims type (merge cases), plus the decode, seal and endpoint tables
+Groups == Types \cup {"decode", "seal", "endpoint"}
+CasesOf(g) == IF g \in Types THEN MergeOf(g) ELSE IF g = "decode" THEN DecodeCases ELSE IF g = "seal" THEN SealCases ELSE EndpointCases
 
 -----------------------------------------------------------------------------
 (* merge: o.src / o.back : name |-> "reg" | "custom" | "zero" | "absent" | "other" (first marshal / after a round trip) ;
@@ -77,6 +84,14 @@ RulesMerge(c, o) ==
     <<"C12.roundtrip.values",     \A n \in Probes[c.t] : o.back[n] = o.src[n]>>,
     <<"C09.nopanic", ~o.panic>> }
 
+RulesEndpoint(c, o) ==
+  { <<"C12.endpoint.registeredWins", o.ok => \A n \in Range(c.regs) : o.src[n] = "reg">>,
+    <<"C12.endpoint.customSurvives", o.ok => \A n \in Range(c.customs) \ Range(c.regs) : o.src[n] = "custom">>,
+    <<"C12.endpoint.noInvention",    o.ok => \A n \in EProbes(c.t) \ (Range(c.regs) \cup Range(c.customs)) : o.src[n] \in {"absent", "zero"}>>,
+    <<"C12.endpoint.extraSurvives",  o.ok => o.extra = "kept">>,
+    <<"C12.endpoint.answers",        o.ok>>,
+    <<"C09.nopanic", ~o.panic>> }
+
 (* decode: o.v : "value" | "zero" | "error" | "invented" | "panic" *)
 RulesDecode(c, o) ==
   { <<"C12.decode.tolerant", (c.form \in Documented[c.field]) => o.v = "value">>,
@@ -90,7 +105,7 @@ RulesSeal(c, o) ==
     <<"C12.seal.freshIV", o.fresh>>,
     <<"C09.nopanic", o.open # "panic">> }
 
-Rules(c, o) == CASE c.kind = "merge" -> RulesMerge(c, o) [] c.kind = "decode" -> RulesDecode(c, o) [] OTHER -> RulesSeal(c, o)
+Rules(c, o) == CASE c.kind = "merge" -> RulesMerge(c, o) [] c.kind = "decode" -> RulesDecode(c, o) [] c.kind = "endpoint" -> RulesEndpoint(c, o) [] OTHER -> RulesSeal(c, o)
 Check(c, o) == {x[1] : x \in {y \in Rules(c, o) : ~y[2]}}
 
 \* the design outcome: what the documented behaviour of the codec produces
@@ -100,6 +115,9 @@ Good(c) ==
                                            ELSE IF n \in NonOmit[c.t] THEN "zero" ELSE "absent"] IN
          [src |-> src, back |-> src, extra |-> "kept", stable |-> TRUE, owned |-> TRUE, panic |-> FALSE]
     [] c.kind = "decode" -> [v |-> IF c.form \in Documented[c.field] THEN "value" ELSE "error"]
+    [] c.kind = "endpoint" ->
+         [src |-> [n \in EProbes(c.t) |-> IF n \in Range(c.regs) THEN "reg" ELSE IF n \in Range(c.customs) THEN "custom" ELSE "absent"],
+          extra |-> "kept", ok |-> TRUE, panic |-> FALSE]
     [] OTHER -> [open |-> IF c.key = "same" THEN "plain" ELSE "different", fresh |-> TRUE]
 Outcomes(c) == {Good(c)}
 Conforms(c, o) == IF c.kind = "decode" THEN (o.v = Good(c).v \/ (o.v = "zero" /\ Good(c).v = "error")) ELSE TRUE
